@@ -5,6 +5,7 @@
    Shared by C05/Run.v and C06/Run.v; nothing is proved here.
 
    case     = ((impl cur0 tt0 (op ...)) (obs ...))      impl: 0 wheel, 1 heap
+            | ((impl cur0 tt0 (op ...) k v) (obs ...))  the id counter is set to v before op k
    op       = (1 d) RunAfter | (2 p) RunEvery | (3 id) Cancel | (4) Size | (5 id) IsScheduled
             | (6) worker: pendingAdd arm | (7) worker: pendingDel arm | (8 n) n units pass
             | (9) worker: ticker arm | (10) structure probe
@@ -13,7 +14,8 @@
             | (n)        for 4 5
             | (status)   for 6 7: 0 nothing pending, 1 handled, 2 panicked (harness stops)
             | ()         for 8
-            | (status id ...)   for 9: ids in the order they appeared on Chan(); status 2 panicked
+            | (status id ...)   for 9: ids in the order they appeared on Chan(); status 2 panicked,
+                                4 the ticker arm never returned (harness stops)
             | (consistent (level slot id deadline period) ...)  for 10
               wheel: buckets in (level, slot) order, each in list order;
               heap: the array in array order with level 0 and slot = the node's index
@@ -47,6 +49,7 @@ Definition stopped (o : op) (b : sx) : bool :=
   | (Start _ | Every _ | Cancel _), SList [SInt 2; _] => true
   | (HandleAdd | HandleDel), SList [SInt 2] => true
   | Tick, SList (SInt 2 :: _) => true
+  | Tick, SList (SInt 4 :: _) => true
   | _, _ => false
   end.
 
@@ -85,7 +88,7 @@ Definition cmp_model (o : op) (m : out) (b : sx) : verdict :=
       | _ => if v =? 2 then VOk else check_that (v =? (if f then 1 else 0)) (VMismatch 5)
       end
   | ODeliv l, SList (SInt status :: ids) =>
-      if status =? 2 then VOk
+      if (status =? 2) || (status =? 4) then VOk
       else match map_opt sx_int ids with
            | Some ids => check_that (zlist_eqb (map fst l) ids) (VMismatch 6)
            | None => VBad
@@ -142,6 +145,7 @@ Definition cmp_spec (pre : sst) (o : op) (z : out) (b : sx) : verdict :=
       end
   | ODeliv l, SList (SInt status :: ids) =>
       if status =? 2 then VPropFail 6
+      else if status =? 4 then VPropFail 7
       else match map_opt sx_int ids with
            | Some ids => match_deliv l ids None true
            | None => VBad
@@ -152,31 +156,48 @@ Definition cmp_spec (pre : sst) (o : op) (z : out) (b : sx) : verdict :=
   end.
 
 (* [stepf]: the model's step — the wheel machine of Model.v, or the heap machine with its
-   real array (HeapArr.v) *)
-Fixpoint go {S : Type} (stepf : S -> op -> S * out) (ops : list op) (obs : list sx) (m : S) (z : sst) (v : verdict) : verdict :=
+   real array (HeapArr.v).  [jump] = Some (k, v): before the op number k (counted from 0)
+   the id counter is set to v (test device of the harness to reach the wrap of the
+   63-bit counter, which 2^63 starts would reach); [setf] sets it in the model state. *)
+Definition zset_next (z : sst) (v : Z) : sst :=
+  mkS (zwheel z) (zclock z) (ztt z) (zrefer z) v (zreq z) (zdels z) (zpending z).
+Definition mset_next (m : st) (v : Z) : st :=
+  mkSt (score m) (sclock m) (srefer m) v (spadd m) (spdel m).
+Definition aset_next (m : ast) (v : Z) : ast :=
+  mkA (aarr m) (aoutside m) (aclock m) (arefer m) v (apadd m) (apdel m).
+
+Fixpoint go {S : Type} (stepf : S -> op -> S * out) (setf : S -> Z -> S) (jump : option (nat * Z))
+            (ops : list op) (obs : list sx) (m : S) (z : sst) (v : verdict) : verdict :=
   match ops, obs with
   | [], [] => v
   | o :: ops', b :: obs' =>
+      let '(m, z, jump) :=
+        match jump with
+        | Some (O, nv) => (setf m nv, zset_next z nv, None)
+        | Some (S k, nv) => (m, z, Some (k, nv))
+        | None => (m, z, None)
+        end in
       if refused o b then vjoin v VBad else
       let '(m', mo) := stepf m o in
       let '(z', zo) := sstep z o in
       let v' := vjoin v (vjoin (cmp_spec z o zo b) (cmp_model o mo b)) in
-      if stopped o b then v' else go stepf ops' obs' m' z' v'
+      if stopped o b then v' else go stepf setf jump ops' obs' m' z' v'
   | _, _ => vjoin v VBad
   end.
 
-(* live-worker case: ((impl n 0 ()) (started delivered cancelled both neither size)),
+(* live-worker case: ((impl n 0 ()) (started delivered cancelled both neither size still)),
    impl 2 = wheel, 3 = heap.  n one-shot timers with delay 0 are started on the REAL worker
    goroutine with nobody reading Chan(); once the worker is stuck delivering, every id is
    cancelled, then Chan() is drained.  The verdict only counts: no timer may be delivered
    although its Cancel returned true (both), none may be neither delivered nor cancelled,
-   every started timer is accounted for, Size() ends at 0. *)
+   every started timer is accounted for, Size() ends at 0, and no one-shot timer is still
+   reported by IsScheduled() at the moment it is received from Chan() (still). *)
 Definition check_live (n : Z) (obs : list sx) : verdict :=
   match obs with
-  | [SInt started; SInt delivered; SInt cancelled; SInt both; SInt neither; SInt size] =>
+  | [SInt started; SInt delivered; SInt cancelled; SInt both; SInt neither; SInt size; SInt still] =>
       vjoin (check_that (both =? 0) (VPropFail 2))
      (vjoin (check_that ((neither =? 0) && (started =? n) && (delivered + cancelled - both + neither =? started)) (VPropFail 1))
-            (check_that (size =? 0) (VPropFail 4)))
+            (check_that ((size =? 0) && (still =? 0)) (VPropFail 4)))
   | _ => VBad
   end.
 
@@ -187,8 +208,16 @@ Definition check_case (c : sx) : verdict :=
   | SList [SList [SInt impl; SInt cur0; SInt tt0; SList ops]; SList obs] =>
       match map_opt dec_op ops with
       | Some ops =>
-          if impl =? 0 then go step ops obs (init_wheel cur0 tt0) (sinit true tt0) VOk
-          else go astep ops obs (ainit tt0) (sinit false tt0) VOk
+          if impl =? 0 then go step mset_next None ops obs (init_wheel cur0 tt0) (sinit true tt0) VOk
+          else go astep aset_next None ops obs (ainit tt0) (sinit false tt0) VOk
+      | None => VBad
+      end
+  | SList [SList [SInt impl; SInt cur0; SInt tt0; SList ops; SInt k; SInt nv]; SList obs] =>
+      match map_opt dec_op ops with
+      | Some ops =>
+          let j := Some (Z.to_nat k, nv) in
+          if impl =? 0 then go step mset_next j ops obs (init_wheel cur0 tt0) (sinit true tt0) VOk
+          else go astep aset_next j ops obs (ainit tt0) (sinit false tt0) VOk
       | None => VBad
       end
   | _ => VBad
